@@ -3,7 +3,11 @@
 # ("is then forgotten by the endpoint, so its identifiers stop routing and its slot can be reused"): see KEYMAP in simrun.py.
 # corpus (raw seed): 1000014 = NEW_CONNECTION_ID retransmitted with retire_prior_to > sequence
 # (fixed by fix-new-cid-retire-prior-to.patch: the seed must stay clean).
-_M = ('multi', 300, 3000, [1000014])
+# 1001139 = recorded finding routing-rotation-exceeds-peer-cid-limit, 1001706 = routing-reset-token-entry-lost,
+# 2001521 = routing-reset-token-reused-with-cid-value (raw seeds that reproduce them on the current tree: the seeds in
+# known_findings.txt predate later changes of the scenario): every check re-observes the recorded findings under their
+# NARROW keys (scen_multi.rs: `...-other-cause` keys are violations).
+_M = ('multi', 300, 3000, [1000014, 1001139, 1001706, 2001521])
 PROPS = {
     'C09': dict(sim=[_M],
                 modelled='routing and isolation end-to-end (system simulator, scenario multi): 3..8 concurrent connections on one server endpoint and on 1..5 client endpoints, CID lengths 0..20 on both sides, seeded / Random / Hashed generators, CID lifetimes forcing rotation, handles, slab slots and 1-2 byte CID values reused, Incoming held / delayed / stale / retried / refused / ignored, client address changes (also two in a row); every datagram handed to a connection is justified from a ledger of issued CIDs (handshake CID + NEW_CONNECTION_ID frames of the plaintext transmit log), initial DCIDs, address tuples and reset tokens; per-connection salted content; endpoint tables compared with the open set and with each connection\'s CidState after every step',
